@@ -17,7 +17,7 @@ import ast
 from dataclasses import dataclass, field
 from typing import Any
 
-from .astutil import norm
+from .astutil import dotted, norm
 from .srcmodel import Mod, Repo, Unsupported
 
 CODEGEN = "pyoak.codegen"
@@ -53,6 +53,15 @@ class Opaque:
 
 
 ALLOWED_ATTRS = {Fld: {"name", "compare", "init", "hash", "repr", "kw_only", "metadata"}, TypeInfo: {"is_collection", "resolved_type"}}
+
+
+def _walk_own(node: ast.AST):
+    """ast.walk that does not enter nested function definitions / lambdas."""
+    yield node
+    for ch in ast.iter_child_nodes(node):
+        if isinstance(ch, (ast.FunctionDef, ast.AsyncFunctionDef, ast.Lambda)):
+            continue
+        yield from _walk_own(ch)
 
 
 class _Ret(Exception):
@@ -105,6 +114,25 @@ class Closure:
 
 
 @dataclass
+class RecordClass:
+    """A NamedTuple class of the generator module: calling it builds a Record."""
+    name: str
+    fields: list[str]
+    defaults: dict[str, ast.expr]
+
+
+class Record(dict):
+    """An instance of a RecordClass (attribute access by field name)."""
+
+
+@dataclass
+class Partial:
+    fn: Any
+    args: list
+    kwargs: dict
+
+
+@dataclass
 class Captured:
     fname: Any = None
     ret_type: Any = None
@@ -130,6 +158,10 @@ class GenInterp:
         for st in mod.tree.body:
             if isinstance(st, ast.FunctionDef):
                 self.globals.vars[st.name] = Closure(st, self.globals, st.name)
+        for st in mod.tree.body:
+            if isinstance(st, ast.ClassDef) and any((norm(b) or "").split(".")[-1] == "NamedTuple" for b in st.bases):
+                flds = [x for x in st.body if isinstance(x, ast.AnnAssign) and isinstance(x.target, ast.Name)]
+                self.globals.vars[st.name] = RecordClass(st.name, [x.target.id for x in flds], {x.target.id: x.value for x in flds if x.value is not None})
         for st in mod.tree.body:  # module constants, lazily tolerant
             if isinstance(st, (ast.Assign, ast.AnnAssign)) and st.value is not None:
                 tg = st.targets[0] if isinstance(st, ast.Assign) and len(st.targets) == 1 else getattr(st, "target", None)
@@ -169,11 +201,15 @@ class GenInterp:
                 sc.vars[p] = self.ev(defaults[p], c.scope)
         if isinstance(c.node, ast.Lambda):
             return self.ev(c.node.body, sc)
+        is_gen = any(isinstance(x, (ast.Yield, ast.YieldFrom)) for st in c.node.body for x in _walk_own(st))
+        if is_gen:
+            # a generator helper of the code generator: evaluated eagerly, its values collected in order (the callers join / iterate them)
+            sc.vars["__yields__"] = []
         try:
             self.block(c.node.body, sc)
         except _Ret as r:
-            return r.v
-        return None
+            return sc.vars["__yields__"] if is_gen else r.v
+        return sc.vars["__yields__"] if is_gen else None
 
     def call(self, e: ast.Call, sc: Scope) -> Any:
         fn = e.func
@@ -204,9 +240,11 @@ class GenInterp:
                 return None
             if sc.lookup(fn.id) is not None:
                 f = sc.get(fn.id, fn)
-                if isinstance(f, Closure):
-                    return self.call_closure(f, args, kwargs, e)
+                if isinstance(f, (Closure, RecordClass, Partial)):
+                    return self.call_value(f, args, kwargs, e)
                 raise Unsupported(f"call of non-function {fn.id}", e)
+            if fn.id in ("partial",):
+                return Partial(args[0], args[1:], kwargs)
             return self.builtin(fn.id, args, kwargs, e)
         if isinstance(fn, ast.Attribute):
             if isinstance(fn.value, ast.Name) and fn.value.id in ("logger", "logging"):
@@ -224,8 +262,24 @@ class GenInterp:
                 return list(r) if m in ("items", "keys", "values") else r
             if isinstance(recv, tuple) and m in ("index", "count"):
                 return getattr(recv, m)(*args)
+            if isinstance(recv, Record) and m in recv:
+                return self.call_value(recv[m], args, kwargs, e)
             raise Unsupported(f"method {m} on {type(recv).__name__} in a generator", e)
         f = self.ev(fn, sc)
+        return self.call_value(f, args, kwargs, e)
+
+    def call_value(self, f: Any, args: list[Any], kwargs: dict[str, Any], e: ast.AST) -> Any:
+        if isinstance(f, Partial):
+            return self.call_value(f.fn, list(f.args) + list(args), {**f.kwargs, **kwargs}, e)
+        if isinstance(f, RecordClass):
+            vals = dict(zip(f.fields, args))
+            vals.update(kwargs)
+            for k in f.fields:
+                if k not in vals:
+                    if k not in f.defaults:
+                        raise Unsupported(f"missing field {k} for {f.name}", e)
+                    vals[k] = self.ev(f.defaults[k], self.globals)
+            return Record(vals)
         if isinstance(f, Closure):
             return self.call_closure(f, args, kwargs, e)
         raise Unsupported(f"call {norm(e)[:50]} in a generator", e)
@@ -303,6 +357,10 @@ class GenInterp:
                     return False
                 raise Unsupported(f"config.{e.attr} in a generator", e)
             base = self.ev(e.value, sc)
+            if isinstance(base, Record):
+                if e.attr in base:
+                    return base[e.attr]
+                raise Unsupported(f"record has no field {e.attr}", e)
             for t, names in ALLOWED_ATTRS.items():
                 if isinstance(base, t):
                     if e.attr in names:
@@ -424,6 +482,12 @@ class GenInterp:
             v = self.ev(e.value, sc)
             sc.set(e.target.id, v)
             return v
+        if isinstance(e, ast.Yield) and sc.lookup("__yields__") is not None:
+            sc.get("__yields__", e).append(self.ev(e.value, sc) if e.value is not None else None)
+            return None
+        if isinstance(e, ast.YieldFrom) and sc.lookup("__yields__") is not None:
+            sc.get("__yields__", e).extend(list(self.ev(e.value, sc)))
+            return None
         raise Unsupported(f"expression kind {type(e).__name__} in a generator", e)
 
     def comp(self, e: ast.AST, sc: Scope) -> Any:
@@ -555,13 +619,53 @@ def run_generator(repo: Repo, gen: str, fields: list[tuple[Fld, TypeInfo]]) -> C
     mod = repo.mod(CODEGEN)
     it = GenInterp(mod)
     f = it.globals.vars.get(gen)
-    if not isinstance(f, Closure):
-        raise Unsupported(f"generator {gen} not found")
     mapping = {fl: ti for fl, ti in fields}
-    it.call_closure(f, [Opaque("clz"), mapping], {}, f.node)
+    if isinstance(f, Partial):
+        it.call_value(f, [Opaque("clz"), mapping], {}, mod.tree)
+    elif not isinstance(f, Closure):
+        # by role: whatever the bootstrap of that accessor calls with (the class, the field table, ...)
+        call = bootstrap_call(mod, gen)
+        if call is None:
+            raise Unsupported(f"generator {gen} not found")
+        sc = Scope(it.globals)
+        sc.vars["__clz__"] = Opaque("clz")
+        sc.vars["__fields__"] = mapping
+        it.call(call, sc)
+    else:
+        it.call_closure(f, [Opaque("clz"), mapping], {}, f.node)
     if len(it.captured) != 1:
         raise Unsupported(f"{gen} hands {len(it.captured)} bodies to _gen_func (1 expected)", f.node)
     return it.captured[0]
+
+
+GEN_BOOTSTRAP = {"_gen_get_child_nodes_func": "gen_and_yield_get_child_nodes", "_gen_get_child_nodes_with_field_func": "gen_and_yield_get_child_nodes_with_field",
+                 "_gen_iter_child_fields_func": "gen_and_yield_iter_child_fields", "_gen_get_properties_func": "gen_and_yield_get_properties"}
+
+
+def bootstrap_call(mod: Mod, gen: str) -> ast.Call | None:
+    """The generator call of the accessor's bootstrap, with `self.__class__` and the field-table lookup replaced by placeholders:
+    `G(self.__class__, get_cls_child_fields(self.__class__), EXTRA...)` -> `G(__clz__, __fields__, EXTRA...)`."""
+    import copy
+    boot = next((st for st in mod.tree.body if isinstance(st, ast.FunctionDef) and st.name == GEN_BOOTSTRAP.get(gen)), None)
+    if boot is None:
+        return None
+    for st in boot.body:
+        if isinstance(st, ast.Expr) and isinstance(st.value, ast.Call) and st.value.args and norm(st.value.args[0]) in ("self.__class__", "type(self)"):
+            c = copy.deepcopy(st.value)
+
+            class R(ast.NodeTransformer):
+                def visit_Call(self, n: ast.Call) -> ast.AST:
+                    if dotted(n.func) in ("get_cls_child_fields", "get_cls_props", "get_cls_all_fields"):
+                        return ast.copy_location(ast.Name(id="__fields__", ctx=ast.Load()), n)
+                    return self.generic_visit(n)
+
+                def visit_Attribute(self, n: ast.Attribute) -> ast.AST:
+                    if norm(n) == "self.__class__":
+                        return ast.copy_location(ast.Name(id="__clz__", ctx=ast.Load()), n)
+                    return self.generic_visit(n)
+            c = R().visit(c)
+            return ast.fix_missing_locations(c)
+    return None
 
 
 def parse_body(text: str) -> list[ast.stmt]:
